@@ -328,9 +328,18 @@ Proof. vm_compute. repeat split. Qed.
 (* ================================================================== 5. CRLF *)
 Definition crlf (text : str) : str := flat_map (fun c => if N.eqb c 10 then [13; 10] else [c]) text.
 
+Lemma lines_strip_alt (cur : str) :
+  match cur with 13 :: c' => rev_append c' [] | _ => rev_append cur [] end =
+  match cur with 13 :: c' => rev c' | _ => rev cur end.
+Proof.
+  destruct cur as [|x t]; [reflexivity|].
+  destruct x as [|p]; [symmetry; apply rev_alt|].
+  repeat (destruct p as [p|p|]; try (symmetry; apply rev_alt)).
+Qed.
+
 Lemma lines_aux_nl r cur :
   lines_aux (10 :: r) cur = (match cur with 13 :: c' => rev c' | _ => rev cur end) :: lines_aux r [].
-Proof. reflexivity. Qed.
+Proof. cbn [lines_aux]. rewrite lines_strip_alt. reflexivity. Qed.
 
 Lemma lines_aux_other c r cur : c <> 10 -> lines_aux (c :: r) cur = lines_aux r (c :: cur).
 Proof.
